@@ -108,6 +108,36 @@ def chunkedP (size : Param) (count : Option Param) (fill : Option α) (src : Lis
       else if c = 0 then .ok []
       else (chunkedIterP size fill src).map (fun l => l.take c.toNat)
 
+/-! ### the type of the chunks: `isinstance(src, (str, bytes))` post-processing -/
+
+/-- what `chunked_iter` asks about its input: is it a `str`, a `bytes`, or any other iterable -/
+inductive SrcKind where
+  | str | bytes | other
+deriving Repr, DecidableEq
+
+/-- the type of every chunk: `''.join(chunk)` for a str input, `bytes(chunk)` for a bytes input, otherwise the
+    list itself (a bytearray / memoryview / tuple / deque … input gives lists) -/
+inductive ChunkKind where
+  | str | bytes | list
+deriving Repr, DecidableEq
+
+def chunkKind : SrcKind → ChunkKind
+  | .str => .str
+  | .bytes => .bytes
+  | .other => .list
+
+/-- the name the harness / the generated table use for an input kind -/
+def SrcKind.ofName (s : String) : SrcKind :=
+  if s = "str" then .str else if s = "bytes" then .bytes else .other
+
+def ChunkKind.name : ChunkKind → String
+  | .str => "str" | .bytes => "bytes" | .list => "list"
+
+/-- `chunked` as called on an input of kind `k`: the chunks (as item lists) and their type -/
+def chunkedK (k : SrcKind) (size : Param) (count : Option Param) (fill : Option α) (src : List α) :
+    Except Err (ChunkKind × List (List α)) :=
+  (chunkedP size count fill src).map (fun l => (chunkKind k, l))
+
 /-! ## windowed / windowed_iter / pairwise -/
 
 /-- `itertools.tee(src, size)` after the staggered advance: tee `i` has lost `i` items -/
